@@ -248,6 +248,7 @@ def gen_c15(seed, tier):
     op["cfg"]["fail_member"] = rng.choice(["obs0", "obs1", "obs2"])
     op["cfg"]["obs_yield"] = rng.random() < 0.5
     op["cfg"]["max_errors"] = rng.choice([0, 1, 3, None])
+    op["cfg"]["transform"] = rng.choice([None, None, None, "relabel", "extra-call"])
     if "faults" in op:
         for f in op["faults"]["calls"].values():
             if rng.random() < 0.7:
@@ -693,6 +694,8 @@ def exec_c13(prop, desc):
                 uberjob.render(b.plan, registry=b.registry, level=level, format="svg")
             uberjob.render(b.plan, predicate=lambda u, d: hash(u) % 2 == 0, level=1)
             uberjob.render(b.plan.graph, registry=b.registry)
+            uberjob.render(b.plan.graph, level=1)
+            uberjob.render(b.plan.graph, predicate=lambda u, d: hash(u) % 3 == 0, level=2)
         except Exception as e:
             viol.append(O.V("render-raised", f"render raised {e!r}"))
         finally:
@@ -926,8 +929,16 @@ def _registry_fault_desc(seed, tier, tag):
 
 def gen_c06(seed, tier):  # noqa: F811
     if seed % 3 == 0:
-        return _registry_fault_desc(seed, tier, "c06r")
-    return _gen_c06_plain(seed, tier)
+        desc = _registry_fault_desc(seed, tier, "c06r")
+    else:
+        desc = _gen_c06_plain(seed, tier)
+    if seed % 5 == 1:
+        # a bundled display whose sink is broken while failures are being reported: the error run raises is still
+        # the call's own
+        rng = worldgen.child_rng(seed, "c06p")
+        desc["ops"][0]["cfg"]["progress"] = "bundled-sinkfail"
+        desc["ops"][0]["cfg"]["sink_fails_from"] = 1
+    return desc
 
 
 def gen_c07(seed, tier):  # noqa: F811
